@@ -95,7 +95,7 @@ _CTRL = re.compile("[\x00-\x1f\x7f-\x9f]")
 X_OPT = ["x;k=", "x;k*=", ";k*0*=", ";k*1=", "iso-8859-1'"]
 X_DICT = ["k=", "k*=", "max-age=", "max-stale"]
 X_ACC = [";q=", "text/html", "*/*", "en-US"]
-X_RANGE = ["bytes=", "bytes ", "-1/", "*/"]
+X_RANGE = ["bytes=", "bytes ", "-1/", "*/", "0-,", "1-2", "-5"]
 X_COOKIE = ['k="', "\\377", "\\400", "\\777", "\\1"]
 X_AUTH = ["Digest ", "Bearer ", "k*=", "/w==", "w6k="]
 X_HOST = [":80", ":443", ":99999", "[::1]", "xn--", ".."]
